@@ -107,6 +107,30 @@ def score_block(case):
             if abs(got2 - expected) > ref.tol(dist, expected, slack):
                 v.append(violation("score_mismatch", {"target": label, "P": P, "affinity": tag, "got": got2, "expected": expected},
                                    target=label, dist=dist, mode=mode, K=K, n=n, via="model.score"))
+        # memory layout of the arguments must not matter (Fortran order, non-contiguous views), on the first matrices of the shard
+        if n_eval < 400:
+            for label, dist, mode, factory in targets[:2]:
+                g = factory()
+                Ag = g.compute_affinity(X, y)
+                base = float(g(P.copy(), Ag))
+                big = np.zeros((2 * n, 2 * K))
+                big[::2, ::2] = P
+                variants = [("P_fortran", np.asfortranarray(P), Ag), ("P_view", big[::2, ::2], Ag)]
+                if Ag is not None:
+                    Ab = np.zeros((2 * n, 2 * n))
+                    Ab[::2, ::2] = Ag
+                    variants += [("A_fortran", P, np.asfortranarray(np.asarray(Ag, dtype=float))), ("A_view", P, Ab[::2, ::2])]
+                for vname, Pv, Av in variants:
+                    n_eval += 1
+                    try:
+                        got = float(g(Pv, Av))
+                        gs, gg = g(Pv, Av, return_grad=True)
+                        ok = abs(got - base) <= 1e-12 * max(1.0, abs(base)) + refs[(dist, mode)][1] and np.shape(gg) == P.shape
+                    except Exception as e:  # noqa
+                        ok, got = False, repr(e)[:200]
+                    if not ok:
+                        v.append(violation("score_depends_on_memory_layout", {"target": label, "layout": vname, "P": P, "contiguous": base, "got": got},
+                                           target=label, dist=dist, mode=mode, K=K, n=n, via=vname))
         if nontrivial:
             nt += 1
         if len(outs) < 4:
